@@ -27,7 +27,11 @@ std::string join_quoted(const std::vector<std::string>& strs, char sep,
         if (i != 0)
             out += sep;
 
-        if (strs[i].find(sep) != std::string::npos)
+        // fields which split_quoted() would not read back verbatim must be
+        // quoted: empty ones (skipped), ones starting with the quote (parsed
+        // as quoted field), and ones containing the separator
+        if (strs[i].empty() || strs[i].front() == quote ||
+            strs[i].find(sep) != std::string::npos)
         {
             out += quote;
             for (std::string::const_iterator it = strs[i].begin();
